@@ -166,6 +166,28 @@ def other_paths(chk):
                 chk.nontrivial(('int-level-name',))
         except Exception as ex:
             chk.violation('broadcast with an index level named 0 raised %r' % ex, {}, part='scalar')
+    # an object broadcast against ITSELF (the identical pandas object as parameter: `a.broadcast(a)`, e.g. a quantity combined with itself): both
+    # results are the object, the operand keeps its index
+    with warnings.catch_warnings():
+        warnings.simplefilter('ignore')
+        selfs = {'series_str_keys': pd.Series([1.5, 2.5, 3.5], index=pd.Index(['c', 'a', 'b'], name='x')),
+                 'series_int_keys': pd.Series([1.5, 2.5, 3.5], index=pd.Index([30, 10, 20], name='node_id')),
+                 'frame_two_levels': pd.DataFrame({'u': [1.0, 2.0, 3.0, 4.0]}, index=pd.MultiIndex.from_tuples([(2, 'b'), (1, 'b'), (2, 'a'), (1, 'a')], names=['element_id', 'part']))}
+        for label, obj in selfs.items():
+            chk.evals(1)
+            o0 = obj.copy(deep=True)
+            try:
+                rp, ro = Broadcaster(obj).broadcast(obj)
+                vals = lambda z: first_col(z).to_numpy() if hasattr(z, 'columns') else z.to_numpy()
+                ok = ro.index.equals(rp.index) and len(ro) == len(o0) and set(ro.index) == set(o0.index) and list(ro.index.names) == list(o0.index.names) \
+                    and all(float(first_col(ro).loc[k]) == float(first_col(o0).loc[k]) and float(first_col(rp).loc[k]) == float(first_col(o0).loc[k]) for k in o0.index)
+                if not ok or not same_frame(obj, o0):
+                    chk.violation('an object broadcast against itself: results do not carry the values of their keys / operand modified', {'object': label},
+                                  {'index': [str(k) for k in o0.index]}, {'object_index': [str(k) for k in ro.index], 'parameter_index': [str(k) for k in rp.index], 'operand_index_after': [str(k) for k in obj.index]}, part='scalar')
+                else:
+                    chk.nontrivial(('self-broadcast', label))
+            except Exception as ex:
+                chk.violation('an object broadcast against itself raised %r' % ex, {'object': label}, part='scalar')
     with warnings.catch_warnings():
         warnings.simplefilter('ignore')
         for n in (1, 2, 3):
